@@ -148,7 +148,7 @@ func (ev *evidence) write(wall time.Duration) {
 		"property_id": ev.Prop,
 		"tier":        ev.Tier,
 		"seed":        ev.Seed,
-		"level":       "model_checking",
+		"level":       levelOf(ev.Prop),
 		"coverage":    cov,
 		"assumptions": assumptionsNote(ev.Prop),
 		"wall_s":      wall.Seconds(),
@@ -198,4 +198,12 @@ func assumptionsNote(prop string) []string {
 		}
 	}
 	return base
+}
+
+// levelOf: C08 is a reduction (monitors + race-detector replay), claimed as "other".
+func levelOf(prop string) string {
+	if prop == "C08" {
+		return "other"
+	}
+	return "model_checking"
 }
